@@ -698,3 +698,370 @@ Qed.
 Example wf_example :
   wf_C39 (VL [VZ 4; VB w_bound; VL []]) = true /\ wf_C39 (VL [VZ 2; VZ 1; VB w_alloc]) = true.
 Proof. vm_compute. split; reflexivity. Qed.
+
+(* ---------- Framer level round trips: DATA and SETTINGS ---------- *)
+Lemma rd_wire_app_at (b rest : bytes) o cs :
+  rd_wire (blen b) (st_at (b ++ rest) o cs) = ROk b (st_at rest (o + blen b) cs).
+Proof.
+  unfold rd_wire, blen. destruct b as [|x b].
+  - simpl. rewrite Z.add_0_r. reflexivity.
+  - destruct (Z.of_nat (length (x :: b)) <=? 0) eqn:E; [apply Z.leb_le in E; simpl length in E; lia|].
+    cbn [wire st_at]. change ((x :: b) ++ rest) with (x :: (b ++ rest)). cbv iota beta.
+    assert (Hle : (Z.of_nat (length (x :: b)) <=? Z.of_nat (length (x :: b ++ rest))) = true).
+    { apply Z.leb_le. simpl length. rewrite app_length. lia. }
+    rewrite Hle. rewrite Nat2Z.id.
+    change (x :: b ++ rest) with ((x :: b) ++ rest).
+    rewrite firstn_app, Nat.sub_diag, firstn_all. simpl firstn. rewrite app_nil_r.
+    rewrite skipn_app, Nat.sub_diag, skipn_all. reflexivity.
+Qed.
+
+Lemma data_roundtrip sid flags data rest o cs :
+  0 < sid < 2^31 -> 0 <= flags < 256 -> blen data <= 2^24 - 1 ->
+  read_frame (st_at (fst (write_frame (FData sid flags data)) ++ rest) o cs) =
+  (VL [VZ 0; VZ sid; VZ flags; VB data], st_at rest (o + 8 + blen data) cs).
+Proof.
+  intros Hs Hf Hl. pose proof (blen_range data) as Hl0.
+  unfold write_frame, data_header.
+  assert (E1 : (sid =? 0) = false) by (apply Z.eqb_neq; lia). rewrite E1.
+  assert (E2 : (2^31 <=? sid) = false) by (apply Z.leb_gt; lia). rewrite E2.
+  assert (E3 : (2^24 - 1 <? blen data) = false) by (apply Z.ltb_ge; lia). rewrite E3.
+  cbn [orb fst].
+  destruct (lenword_exact flags (blen data) Hf ltac:(lia)) as (Hw & Hw1 & Hw2).
+  assert (Hwr : 0 <= lenword flags (blen data) < 2^32).
+  { rewrite Hw. change (2^24) with 16777216 in *. change (2^32) with 4294967296. lia. }
+  unfold be32. cbn [app]. rewrite <- ?app_assoc. cbn [app]. unfold read_frame.
+  rd4. rewrite dec32_cons by (change (2^32) with (2 * 2^31); lia).
+  rd4. rewrite dec32_cons by exact Hwr.
+  cbv zeta.
+  assert (E4 : (sid <? 2^31) = true) by (apply Z.ltb_lt; lia). rewrite E4.
+  rewrite Hw1, Hw2. rewrite rd_wire_app_at. rewrite E1.
+  replace (o + 4 + 4 + blen data) with (o + 8 + blen data) by lia. reflexivity.
+Qed.
+
+Definition set_ok (t : Z * Z * Z) : bool :=
+  let '(f, i, x) := t in (0 <=? f) && (f <? 256) && (0 <=? i) && (i <? 2^24) && (0 <=? x) && (x <? 2^32).
+Definition set_val (t : Z * Z * Z) : val := let '(f, i, x) := t in VL [VZ f; VZ i; VZ x].
+Definition set_enc (t : Z * Z * Z) : bytes := let '(fl, id, v) := t in be32 (u32 (Z.lor (fl * 2^24) id)) ++ be32 v.
+Lemma read_settings_written l : forall rest o cs acc,
+  forallb set_ok l = true ->
+  read_settings (length l) (st_at (concat (map set_enc l) ++ rest) o cs) acc =
+  inr (rev acc ++ map set_val l, st_at rest (o + 8 * Z.of_nat (length l)) cs).
+Proof.
+  induction l as [|[[f i] x] l IH]; intros rest o cs acc Hok.
+  - simpl. rewrite app_nil_r, Z.add_0_r. reflexivity.
+  - cbn [forallb] in Hok. apply andb_true_iff in Hok. destruct Hok as [Ht Hok].
+    unfold set_ok in Ht. repeat (apply andb_true_iff in Ht; destruct Ht as [Ht ?]).
+    repeat match goal with H : (_ <=? _) = true |- _ => apply Z.leb_le in H | H : (_ <? _) = true |- _ => apply Z.ltb_lt in H end.
+    apply Z.leb_le in Ht.
+    cbn [length map concat set_enc read_settings].
+    destruct (lenword_exact f i ltac:(lia) ltac:(lia)) as (Hw & Hw1 & Hw2). unfold lenword in Hw, Hw1, Hw2.
+    assert (Hwr : 0 <= u32 (Z.lor (f * 2^24) i) < 2^32).
+    { rewrite Hw. change (2^24) with 16777216 in *. change (2^32) with 4294967296. lia. }
+    unfold be32 at 1 2. cbn [app]. rewrite <- ?app_assoc. cbn [app].
+    rd4. rewrite dec32_cons by exact Hwr. rd4. rewrite dec32_cons by lia.
+    rewrite Hw1, Hw2. rewrite IH by exact Hok. cbn [rev map]. rewrite <- app_assoc. cbn [app].
+    f_equal. f_equal. f_equal. lia.
+Qed.
+Lemma settings_roundtrip flags l rest cs :
+  0 <= flags < 256 -> (length l <= 1024)%nat -> forallb set_ok l = true ->
+  read_frame (st_at (fst (write_frame (FSettings flags l)) ++ rest) 0 cs) =
+  (VL [VZ 4; VZ 3; VZ flags; VZ (Z.of_nat (length l) * 8 + 4); VL (map set_val l)],
+   st_at rest (12 + 8 * Z.of_nat (length l)) cs).
+Proof.
+  intros Hf Hn Hok. unfold write_frame.
+  assert (E0 : (1024 <? Z.of_nat (length l)) = false) by (apply Z.ltb_ge; lia). rewrite E0.
+  cbn [fst]. set (n := Z.of_nat (length l)) in *.
+  assert (Hu1 : u32 (n * 8 + 4) = n * 8 + 4) by (unfold u32; apply Z.mod_small; change (2^32) with 4294967296; lia).
+  assert (Hu2 : u32 n = n) by (unfold u32; apply Z.mod_small; change (2^32) with 4294967296; lia).
+  rewrite Hu1, Hu2.
+  destruct (lenword_exact flags (n * 8 + 4) Hf ltac:(change (2^24) with 16777216; lia)) as (Hw & Hw1 & Hw2).
+  assert (Hwr : 0 <= lenword flags (n * 8 + 4) < 2^32).
+  { rewrite Hw. change (2^24) with 16777216 in *. change (2^32) with 4294967296. lia. }
+  unfold cf_header. change (be16 (Z.lor 32768 3)) with [128; 3]. change (be16 4) with [0; 4].
+  unfold be32 at 1 2. cbn [app]. rewrite <- ?app_assoc. cbn [app]. unfold read_frame.
+  rd4. change (dec32 [128; 3; 0; 4]) with 2147680260.
+  rd4. rewrite dec32_cons by exact Hwr.
+  cbv zeta. change (2147680260 <? 2 ^ 31) with false. cbv iota.
+  change (2147680260 mod 2 ^ 16) with 4. cbn [Z.eqb Pos.eqb orb].
+  change (2147680260 / 2 ^ 16 mod 2 ^ 15) with 3.
+  rd4. rewrite dec32_cons by lia.
+  rewrite E0. rewrite Hw1, Hw2.
+  assert (E1 : (n * 8 + 4 =? 4 + 8 * n) = true) by (apply Z.eqb_eq; lia). rewrite E1. cbn [negb].
+  unfold n at 1. rewrite Nat2Z.id.
+  change (fun t : Z * Z * Z => let '(fl, id, v) := t in be32 (u32 (Z.lor (fl * 2 ^ 24) id)) ++ be32 v) with set_enc.
+  rewrite read_settings_written by exact Hok. cbn [rev app].
+  replace (0 + 4 + 4 + 4 + 8 * Z.of_nat (length l)) with (12 + 8 * Z.of_nat (length l)) by lia.
+  reflexivity.
+Qed.
+
+(* ---------- header-bearing frames through the (identity-oracle) decompressor ---------- *)
+(* parse of a written block, for any reader that delivers a prefix exactly (plain bytes, or the decompressor's
+   pending plain bytes) *)
+Section WrittenGeneric.
+  Context {T : Type} (rd : Z -> T -> rres T) (mk : bytes -> T).
+  Hypothesis rd_app : forall x r, rd (blen x) (mk (x ++ r)) = ROk x (mk r).
+  Lemma rd_be32_g n r : rd 4 (mk (be32 n ++ r)) = ROk (be32 n) (mk r).
+  Proof. exact (rd_app (be32 n) r). Qed.
+  Lemma parse_entries_written_g es : forall rest h e hl mx,
+    forallb ent_ok es = true ->
+    parse_entries rd (length es) (mk (concat (map write_entry es) ++ rest)) h e hl mx =
+    let '(h', e', hl', mx') := fold_left spec_step es (h, e, hl, mx) in PDone h' hl' e' (mk rest) mx'.
+  Proof.
+    induction es as [|[[name low] vals] es IH]; intros rest h e hl mx Hok.
+    - reflexivity.
+    - simpl in Hok. apply andb_true_iff in Hok. destruct Hok as [Hent Hok].
+      apply andb_true_iff in Hent. destruct Hent as [Hent Hlow].
+      apply andb_true_iff in Hent. destruct Hent as [Hn Hv].
+      apply Z.ltb_lt in Hn. apply Z.ltb_lt in Hv.
+      destruct (go_lower low) as [l|] eqn:Hgl; [|discriminate].
+      apply bytes_eqb_eq in Hlow. subst l.
+      pose proof (blen_range low) as Hn0. pose proof (blen_range (join_byte 0 vals)) as Hv0.
+      cbn [length map concat fold_left].
+      unfold write_entry at 1. cbv zeta.
+      rewrite <- !app_assoc.
+      cbn [parse_entries].
+      rewrite rd_be32_g.
+      assert (Hu1 : u32 (blen low) = blen low) by (unfold u32; apply Z.mod_small; lia).
+      assert (Hu2 : u32 (blen (join_byte 0 vals)) = blen (join_byte 0 vals)) by (unfold u32; apply Z.mod_small; lia).
+      rewrite Hu1, Hu2.
+      rewrite (dec32_be32 (blen low)) by lia.
+      rewrite rd_app. rewrite Hgl.
+      rewrite rd_be32_g. rewrite (dec32_be32 (blen (join_byte 0 vals))) by lia.
+      rewrite rd_app.
+      assert (Hrefl : bytes_eqb low low = true) by (apply bytes_eqb_eq; reflexivity).
+      rewrite Hrefl.
+      rewrite IH by exact Hok.
+      unfold spec_step at 2. reflexivity.
+  Qed.
+  Lemma parse_block_written_g es rest :
+    forallb ent_ok es = true -> (length es <= 1024)%nat ->
+    parse_block rd (mk (write_block es ++ rest)) =
+    let '(h', e', hl', mx') := fold_left spec_step es ([], 0, 0, 4) in
+    if e' =? 0 then PDone h' (u32 (hl' + Z.of_nat (length es) * 4)) 0 (mk rest) mx' else PDone h' 0 e' (mk rest) mx'.
+  Proof.
+    intros Hok Hn. unfold parse_block, write_block. rewrite <- app_assoc. rewrite rd_be32_g.
+    assert (Hu : u32 (Z.of_nat (length es)) = Z.of_nat (length es)) by (unfold u32; apply Z.mod_small; lia).
+    rewrite Hu. rewrite dec32_be32 by lia.
+    destruct (1024 <? Z.of_nat (length es)) eqn:E; [apply Z.ltb_lt in E; lia|].
+    rewrite Nat2Z.id. rewrite parse_entries_written_g by exact Hok.
+    match goal with |- context [fold_left spec_step es ?a] => set (F := fold_left spec_step es a) end.
+    try match goal with |- context [fold_left spec_step es ?a] => change (fold_left spec_step es a) with F end.
+    destruct F as [[[h' e'] hl'] mx']. reflexivity.
+  Qed.
+End WrittenGeneric.
+
+(* the decompressor holding plain bytes p after its window has been pulled from the wire *)
+Definition zst (W : bytes) (O : Z) (C : list chunk) (I : Z) (p : bytes) : fstate :=
+  {| wire := W; off := O; chunks := C; nexti := I; pend := p; zerr := false; zinit := true; lim := 0 |}.
+Lemma zread_app W O C I x r : zread (blen x) (zst W O C I (x ++ r)) = ROk x (zst W O C I r).
+Proof.
+  unfold zread, blen. destruct x as [|y x]; [reflexivity|].
+  destruct (Z.of_nat (length (y :: x)) <=? 0) eqn:E; [apply Z.leb_le in E; simpl length in E; lia|].
+  cbn [zerr pend zst].
+  assert (Hle : (Z.of_nat (length (y :: x)) <=? Z.of_nat (length ((y :: x) ++ r))) = true).
+  { apply Z.leb_le. rewrite app_length. lia. }
+  rewrite Hle. rewrite Nat2Z.id.
+  rewrite firstn_app, Nat.sub_diag, firstn_all. simpl firstn. rewrite app_nil_r.
+  rewrite skipn_app, Nat.sub_diag, skipn_all. reflexivity.
+Qed.
+
+(* SYN_REPLY written by the Framer and read by a fresh Framer whose inflater returns the block (oracle chunk 0) *)
+Lemma syn_reply_roundtrip flags sid es rest :
+  0 <= flags < 256 -> 0 < sid < 2^31 -> forallb ent_ok es = true -> (length es <= 1024)%nat ->
+  blen (write_block es) + 4 < 2^24 ->
+  let b := write_block es in
+  let '(h', e', hl', mx') := fold_left spec_step es ([], 0, 0, 4) in
+  e' = 0 -> has_invalid invalid_resp h' = false ->
+  fst (read_frame (st_at (fst (write_frame (FReply flags sid es)) ++ rest) 0
+                         [{| c_idx := 0; c_off := 12; c_size := blen b; c_plain := b |}]))
+  = VL [VZ 2; VZ 3; VZ flags; VZ (blen b + 4); VZ sid; v_headers h'].
+Proof.
+  intros Hf Hs Hok Hn Hlen. cbv zeta.
+  destruct (fold_left spec_step es ([], 0, 0, 4)) as [[[h' e'] hl'] mx'] eqn:EF. intros He Hinv. subst e'.
+  set (b := write_block es) in *.
+  assert (Hb4 : 4 <= blen b).
+  { unfold b, write_block, blen. rewrite app_length. simpl length. lia. }
+  unfold write_frame.
+  assert (E1 : (sid =? 0) = false) by (apply Z.eqb_neq; lia). rewrite E1.
+  fold b. cbv zeta.
+  assert (E2 : (2^24 - 1 <? blen b + 4) = false) by (apply Z.ltb_ge; lia). rewrite E2.
+  cbn [fst].
+  assert (Hu1 : u32 (blen b + 4) = blen b + 4) by (unfold u32; apply Z.mod_small; change (2^32) with 4294967296; change (2^24) with 16777216 in *; lia).
+  rewrite Hu1.
+  destruct (lenword_exact flags (blen b + 4) Hf ltac:(lia)) as (Hw & Hw1 & Hw2).
+  assert (Hwr : 0 <= lenword flags (blen b + 4) < 2^32).
+  { rewrite Hw. change (2^24) with 16777216 in *. change (2^32) with 4294967296. lia. }
+  unfold cf_header. change (be16 (Z.lor 32768 3)) with [128; 3]. change (be16 2) with [0; 2].
+  unfold be32 at 1 2. cbn [app]. rewrite <- ?app_assoc. cbn [app]. unfold read_frame.
+  rd4. change (dec32 [128; 3; 0; 2]) with 2147680258.
+  rd4. rewrite dec32_cons by exact Hwr.
+  cbv zeta. change (2147680258 <? 2 ^ 31) with false. cbv iota.
+  change (2147680258 mod 2 ^ 16) with 2. cbn [Z.eqb Pos.eqb orb].
+  change (2147680258 / 2 ^ 16 mod 2 ^ 15) with 3.
+  rewrite Hw1, Hw2.
+  assert (E3 : (blen b + 4 <? 4) = false) by (apply Z.ltb_ge; lia). rewrite E3.
+  rd4. rewrite dec32_cons by (change (2^32) with (2 * 2^31); lia).
+  rewrite (m31_small sid) by lia.
+  replace (blen b + 4 - 4) with (blen b) by lia.
+  assert (Hu2 : u32 (blen b) = blen b) by (unfold u32; apply Z.mod_small; change (2^32) with 4294967296; change (2^24) with 16777216 in *; lia).
+  rewrite Hu2.
+  (* uncork: the decompressor is created and pulls its window *)
+  unfold read_header_part, uncork. cbn [zinit st_at].
+  assert (E4 : (blen b =? 0) = false) by (apply Z.eqb_neq; lia). rewrite E4.
+  unfold slurp. cbn [chunks off set_lim st_at find c_off c_idx c_size c_plain nexti lim wire pend zerr zinit].
+  change (12 =? 0 + 4 + 4 + 4) with true. cbv iota.
+  change (0 =? 0) with true. cbn [c_size c_plain c_idx c_off app andb]. rewrite Z.eqb_refl. cbn [andb].
+  assert (E5 : (0 <? blen b) = true) by (apply Z.ltb_lt; lia). rewrite E5.
+  assert (E6 : (blen b <=? blen (b ++ rest)) = true).
+  { apply Z.leb_le. unfold blen. rewrite app_length. lia. }
+  rewrite E6. cbn [andb app].
+  assert (Hsk : skipn (Z.to_nat (blen b)) (b ++ rest) = rest).
+  { unfold blen. rewrite Nat2Z.id, skipn_app, Nat.sub_diag, skipn_all. reflexivity. }
+  rewrite Hsk. rewrite ?Z.eqb_refl. cbn [andb]. cbv iota beta.
+  match goal with |- context [parse_block zread ?s] =>
+    change s with (zst rest (0 + 4 + 4 + 4 + blen b) [{| c_idx := 0; c_off := 12; c_size := blen b; c_plain := b |}] (0 + 1) b) end.
+  match goal with |- context [parse_block zread (zst ?W ?O ?C ?I b)] =>
+    replace (parse_block zread (zst W O C I b)) with (parse_block zread (zst W O C I (write_block es ++ [])))
+      by (rewrite app_nil_r; reflexivity);
+    rewrite (parse_block_written_g zread (zst W O C I) (zread_app W O C I) es [] Hok Hn)
+  end.
+  rewrite EF. cbn [Z.eqb]. cbn [lim zst Z.eqb negb]. cbn [Z.eqb negb].
+  cbn [Z.eqb Pos.eqb negb orb andb]. rewrite Hinv. cbn [negb andb]. rewrite E1. reflexivity.
+Qed.
+Lemma headers_roundtrip flags sid es rest :
+  0 <= flags < 256 -> 0 < sid < 2^31 -> forallb ent_ok es = true -> (length es <= 1024)%nat ->
+  blen (write_block es) + 4 < 2^24 ->
+  let b := write_block es in
+  let '(h', e', hl', mx') := fold_left spec_step es ([], 0, 0, 4) in
+  e' = 0 -> has_invalid (if sid mod 2 =? 0 then invalid_req else invalid_resp) h' = false -> url_too_long h' = false ->
+  fst (read_frame (st_at (fst (write_frame (FHeaders flags sid es)) ++ rest) 0
+                         [{| c_idx := 0; c_off := 12; c_size := blen b; c_plain := b |}]))
+  = VL [VZ 8; VZ 3; VZ flags; VZ (blen b + 4); VZ sid; v_headers h'].
+Proof.
+  intros Hf Hs Hok Hn Hlen. cbv zeta.
+  destruct (fold_left spec_step es ([], 0, 0, 4)) as [[[h' e'] hl'] mx'] eqn:EF. intros He Hinv Hurl. subst e'.
+  set (b := write_block es) in *.
+  assert (Hb4 : 4 <= blen b).
+  { unfold b, write_block, blen. rewrite app_length. simpl length. lia. }
+  unfold write_frame.
+  assert (E1 : (sid =? 0) = false) by (apply Z.eqb_neq; lia). rewrite E1.
+  fold b. cbv zeta.
+  assert (E2 : (2^24 - 1 <? blen b + 4) = false) by (apply Z.ltb_ge; lia). rewrite E2.
+  cbn [fst].
+  assert (Hu1 : u32 (blen b + 4) = blen b + 4) by (unfold u32; apply Z.mod_small; change (2^32) with 4294967296; change (2^24) with 16777216 in *; lia).
+  rewrite Hu1.
+  destruct (lenword_exact flags (blen b + 4) Hf ltac:(lia)) as (Hw & Hw1 & Hw2).
+  assert (Hwr : 0 <= lenword flags (blen b + 4) < 2^32).
+  { rewrite Hw. change (2^24) with 16777216 in *. change (2^32) with 4294967296. lia. }
+  unfold cf_header. change (be16 (Z.lor 32768 3)) with [128; 3]. change (be16 8) with [0; 8].
+  unfold be32 at 1 2. cbn [app]. rewrite <- ?app_assoc. cbn [app]. unfold read_frame.
+  rd4. change (dec32 [128; 3; 0; 8]) with 2147680264.
+  rd4. rewrite dec32_cons by exact Hwr.
+  cbv zeta. change (2147680264 <? 2 ^ 31) with false. cbv iota.
+  change (2147680264 mod 2 ^ 16) with 8. cbn [Z.eqb Pos.eqb orb].
+  change (2147680264 / 2 ^ 16 mod 2 ^ 15) with 3.
+  rewrite Hw1, Hw2.
+  assert (E3 : (blen b + 4 <? 4) = false) by (apply Z.ltb_ge; lia). rewrite E3.
+  rd4. rewrite dec32_cons by (change (2^32) with (2 * 2^31); lia).
+  rewrite (m31_small sid) by lia.
+  replace (blen b + 4 - 4) with (blen b) by lia.
+  assert (Hu2 : u32 (blen b) = blen b) by (unfold u32; apply Z.mod_small; change (2^32) with 4294967296; change (2^24) with 16777216 in *; lia).
+  rewrite Hu2.
+  (* uncork: the decompressor is created and pulls its window *)
+  unfold read_header_part, uncork. cbn [zinit st_at].
+  assert (E4 : (blen b =? 0) = false) by (apply Z.eqb_neq; lia). rewrite E4.
+  unfold slurp. cbn [chunks off set_lim st_at find c_off c_idx c_size c_plain nexti lim wire pend zerr zinit].
+  change (12 =? 0 + 4 + 4 + 4) with true. cbv iota.
+  change (0 =? 0) with true. cbn [c_size c_plain c_idx c_off app andb]. rewrite Z.eqb_refl. cbn [andb].
+  assert (E5 : (0 <? blen b) = true) by (apply Z.ltb_lt; lia). rewrite E5.
+  assert (E6 : (blen b <=? blen (b ++ rest)) = true).
+  { apply Z.leb_le. unfold blen. rewrite app_length. lia. }
+  rewrite E6. cbn [andb app].
+  assert (Hsk : skipn (Z.to_nat (blen b)) (b ++ rest) = rest).
+  { unfold blen. rewrite Nat2Z.id, skipn_app, Nat.sub_diag, skipn_all. reflexivity. }
+  rewrite Hsk. rewrite ?Z.eqb_refl. cbn [andb]. cbv iota beta.
+  match goal with |- context [parse_block zread ?s] =>
+    change s with (zst rest (0 + 4 + 4 + 4 + blen b) [{| c_idx := 0; c_off := 12; c_size := blen b; c_plain := b |}] (0 + 1) b) end.
+  match goal with |- context [parse_block zread (zst ?W ?O ?C ?I b)] =>
+    replace (parse_block zread (zst W O C I b)) with (parse_block zread (zst W O C I (write_block es ++ [])))
+      by (rewrite app_nil_r; reflexivity);
+    rewrite (parse_block_written_g zread (zst W O C I) (zread_app W O C I) es [] Hok Hn)
+  end.
+  rewrite EF. cbn [Z.eqb]. cbn [lim zst Z.eqb negb]. cbn [Z.eqb negb].
+  cbn [Z.eqb Pos.eqb negb orb andb]. cbv zeta. change (8 =? 1) with false. change (8 =? 2) with false. cbv iota.
+  match goal with |- context [has_invalid ?x h'] => replace (has_invalid x h') with false by (symmetry; exact Hinv) end. cbn [negb andb]. rewrite Hurl. rewrite E1. reflexivity.
+Qed.
+Lemma rd_wire1 a w o cs : rd_wire 1 (st_at (a :: w) o cs) = ROk [a] (st_at w (o + 1) cs).
+Proof.
+  unfold rd_wire. cbn [Z.leb Z.compare Pos.compare wire st_at].
+  assert (E : (1 <=? blen (a :: w)) = true) by (apply Z.leb_le; unfold blen; simpl length; lia).
+  rewrite E. reflexivity.
+Qed.
+Lemma syn_stream_roundtrip flags sid assoc prio slot es rest :
+  0 <= flags < 256 -> 0 < sid < 2^31 -> 0 <= assoc < 2^31 -> 0 <= prio < 8 -> 0 <= slot < 256 ->
+  forallb ent_ok es = true -> (length es <= 1024)%nat ->
+  blen (write_block es) + 10 < 2^24 ->
+  let b := write_block es in
+  let '(h', e', hl', mx') := fold_left spec_step es ([], 0, 0, 4) in
+  e' = 0 -> has_invalid invalid_req h' = false -> url_too_long h' = false ->
+  fst (read_frame (st_at (fst (write_frame (FSyn flags sid assoc prio slot es)) ++ rest) 0
+                         [{| c_idx := 0; c_off := 18; c_size := blen b; c_plain := b |}]))
+  = VL [VZ 1; VZ 3; VZ flags; VZ (blen b + 10); VZ sid; VZ assoc; VZ prio; VZ slot; v_headers h'].
+Proof.
+  intros Hf Hs Ha Hp Hsl Hok Hn Hlen. cbv zeta.
+  destruct (fold_left spec_step es ([], 0, 0, 4)) as [[[h' e'] hl'] mx'] eqn:EF. intros He Hinv Hurl. subst e'.
+  set (b := write_block es) in *.
+  assert (Hb4 : 4 <= blen b).
+  { unfold b, write_block, blen. rewrite app_length. simpl length. lia. }
+  unfold write_frame.
+  assert (E1 : (sid =? 0) = false) by (apply Z.eqb_neq; lia). rewrite E1.
+  fold b. cbv zeta.
+  assert (E2 : (2^24 - 1 <? blen b + 10) = false) by (apply Z.ltb_ge; lia). rewrite E2.
+  cbn [fst].
+  assert (Hu1 : u32 (blen b + 10) = blen b + 10) by (unfold u32; apply Z.mod_small; change (2^32) with 4294967296; change (2^24) with 16777216 in *; lia).
+  rewrite Hu1.
+  destruct (lenword_exact flags (blen b + 10) Hf ltac:(lia)) as (Hw & Hw1 & Hw2).
+  assert (Hwr : 0 <= lenword flags (blen b + 10) < 2^32).
+  { rewrite Hw. change (2^24) with 16777216 in *. change (2^32) with 4294967296. lia. }
+  unfold cf_header. change (be16 (Z.lor 32768 3)) with [128; 3]. change (be16 1) with [0; 1].
+  unfold be32 at 1 2 3. cbn [app]. rewrite <- ?app_assoc. cbn [app]. unfold read_frame.
+  rd4. change (dec32 [128; 3; 0; 1]) with 2147680257.
+  rd4. rewrite dec32_cons by exact Hwr.
+  cbv zeta. change (2147680257 <? 2 ^ 31) with false. cbv iota.
+  change (2147680257 mod 2 ^ 16) with 1. cbn [Z.eqb Pos.eqb orb].
+  change (2147680257 / 2 ^ 16 mod 2 ^ 15) with 3.
+  rewrite Hw1, Hw2.
+  assert (E3 : (blen b + 10 <? 10) = false) by (apply Z.ltb_ge; lia). rewrite E3.
+  rd4. rewrite dec32_cons by (change (2^32) with (2 * 2^31); lia).
+  rd4. rewrite dec32_cons by (change (2^32) with (2 * 2^31); lia).
+  rewrite rd_wire1. cbv beta iota. rewrite rd_wire1. cbv beta iota.
+  rewrite (m31_small sid) by lia. rewrite (m31_small assoc) by lia.
+  assert (Hpr : hd 0 [(prio * 32) mod 256] / 32 = prio).
+  { cbn [hd]. rewrite Z.mod_small by lia. apply Z.div_mul. lia. }
+  rewrite Hpr. cbn [hd].
+  replace (blen b + 10 - 10) with (blen b) by lia.
+  assert (Hu2 : u32 (blen b) = blen b) by (unfold u32; apply Z.mod_small; change (2^32) with 4294967296; change (2^24) with 16777216 in *; lia).
+  rewrite Hu2.
+  (* uncork: the decompressor is created and pulls its window *)
+  unfold read_header_part, uncork. cbn [zinit st_at].
+  assert (E4 : (blen b =? 0) = false) by (apply Z.eqb_neq; lia). rewrite E4.
+  unfold slurp. cbn [chunks off set_lim st_at find c_off c_idx c_size c_plain nexti lim wire pend zerr zinit].
+  change (18 =? 0 + 4 + 4 + 4 + 4 + 1 + 1) with true. cbv iota.
+  change (0 =? 0) with true. cbn [c_size c_plain c_idx c_off app andb]. rewrite Z.eqb_refl. cbn [andb].
+  assert (E5 : (0 <? blen b) = true) by (apply Z.ltb_lt; lia). rewrite E5.
+  assert (E6 : (blen b <=? blen (b ++ rest)) = true).
+  { apply Z.leb_le. unfold blen. rewrite app_length. lia. }
+  rewrite E6. cbn [andb app].
+  assert (Hsk : skipn (Z.to_nat (blen b)) (b ++ rest) = rest).
+  { unfold blen. rewrite Nat2Z.id, skipn_app, Nat.sub_diag, skipn_all. reflexivity. }
+  rewrite Hsk. rewrite ?Z.eqb_refl. cbn [andb]. cbv iota beta.
+  match goal with |- context [parse_block zread ?s] =>
+    change s with (zst rest (0 + 4 + 4 + 4 + 4 + 1 + 1 + blen b) [{| c_idx := 0; c_off := 18; c_size := blen b; c_plain := b |}] (0 + 1) b) end.
+  match goal with |- context [parse_block zread (zst ?W ?O ?C ?I b)] =>
+    replace (parse_block zread (zst W O C I b)) with (parse_block zread (zst W O C I (write_block es ++ [])))
+      by (rewrite app_nil_r; reflexivity);
+    rewrite (parse_block_written_g zread (zst W O C I) (zread_app W O C I) es [] Hok Hn)
+  end.
+  rewrite EF. cbn [Z.eqb]. cbn [lim zst Z.eqb negb]. cbn [Z.eqb negb].
+  cbn [Z.eqb Pos.eqb negb orb andb]. rewrite Hinv. cbn [negb andb]. rewrite Hurl. rewrite E1. reflexivity.
+Qed.
